@@ -248,8 +248,6 @@ def r2_key(ctx: Ctx) -> None:
                   f'pattern-function list {sorted(have)} differs from the boolean match functions {sorted(bool_fns)} '
                   f'(missing {sorted(bool_fns - have)}, extra {sorted(have - bool_fns)}): conditions using the missing ones do not count', r)
         all_with_paren = all(x.endswith('(') for x in lists[pat_list[0]])
-        ctx.check(all_with_paren, 'C09.R5', f, 'table:pattern-call-form', 'pattern functions counted as calls ("name(")',
-                  'pattern function names are counted without "(" and also match inside other words', r)
         kws = set(lists[con_list[0]])
         need = CONSTRAINT_PRIMS | {'field.'}
         # primitives the evaluator really resolves
@@ -275,6 +273,10 @@ def r2_key(ctx: Ctx) -> None:
                     if isinstance(n, ast.Compare) and any(isinstance(o, ast.In) for o in n.ops) and is_text(n.comparators[0], s):
                         text_based.append(n)
         uses_ast = False        # a parse elsewhere in the function does not make a substring count structural
+        # names searched for in the *text* have to carry their "(" or they also match inside other words; names compared with the callee of a
+        # parsed call need not
+        ctx.check(all_with_paren or not text_based, 'C09.R5', f, 'table:pattern-call-form', 'pattern functions are counted as calls',
+                  'pattern function names are searched for in the expression text without "(" and also match inside other words', r)
         if text_based and not uses_ast:
             ctx.fail('C09.R3', f, 'text-count',
                      f'pattern conditions and constraint kinds are counted by substring search over the expression text ({src(text_based[0])[:40]!r}, …): '
